@@ -2,7 +2,7 @@
 From Coq Require Import List ZArith Bool.
 From Verif Require Import C05.Model C05.Spec C05.Codec C05.Trace
      C05.Proofs_base C05.Proofs_ledger C05.Proofs_index C05.Proofs_pure C05.Proofs_view
-     C05.Proofs_codec C05.Proofs_ghost C05.Proofs_sched.
+     C05.Proofs_codec C05.Proofs_ghost C05.Proofs_sched C05.Proofs_follow C05.Proofs_dead.
 Import ListNotations.
 Open Scope Z_scope.
 
@@ -69,6 +69,53 @@ Theorem c05_recorded_is_last_delivered : forall l,
   exists r, last_req (fst q) (deliver [] l) = Some r /\ forall k, getv k (snd q) = getv k r.
 Proof. exact (fun l H => ghost_run l [] init_cache H (ghost_init [])). Qed.
 Print Assumptions c05_recorded_is_last_delivered.
+
+(* ---- reserved dimensions / amounts = those of the object delivered last ---- *)
+
+(* for ALL histories of cache operations: every cached reservation has, as its reserved dimensions
+   (ResourceNames), exactly the resources reserved by the Reservation object / operating pod
+   delivered last for its uid -- narrowed to the restricted-options only when those name at least
+   one resource it reserves --, and that object's reserved amounts and allocate policy.  With
+   c05_ledger and c05_recorded_is_last_delivered: allocated = sum over the assigned pods of the
+   last delivered request, in the reserved dimensions of the last delivered reservation object *)
+Theorem c05_reserved_dimensions : forall l i,
+  In i (infos (crun init_cache l)) ->
+  exists s, last_spec (r_uid i) (deliver_specs [] l) = Some s
+            /\ names_spec s (r_names i) /\ r_allocatable i = s_alloc s
+            /\ s_policy (r_spec i) = s_policy s.
+Proof. exact specs_followed_all_histories. Qed.
+Print Assumptions c05_reserved_dimensions.
+
+(* the decision procedure of clause 12 decides that specification *)
+Theorem c05_reserved_dimensions_decided : forall s nm,
+  names_okb s nm = true <-> names_spec s nm.
+Proof. exact names_okb_spec. Qed.
+Print Assumptions c05_reserved_dimensions_decided.
+
+(* a restricted reservation never ends up with no reserved dimension while it reserves something *)
+Theorem c05_reserved_dimensions_nonempty : forall s k,
+  hask k (s_alloc s) = true -> names_of s <> [].
+Proof. exact names_nonempty. Qed.
+Print Assumptions c05_reserved_dimensions_nonempty.
+
+(* ---- deleted reservations ---- *)
+
+(* for ALL node-stable histories of entry points, informer events included (each delivered to the
+   plugin's handler and to the scheduler-wide handler in either order, delete events possibly as
+   tombstones): a reservation reported deleted and not delivered again since (dead_of) is in none
+   of the three per-node indexes, and is gone from the cache when the event carried its node name *)
+Theorem c05_deleted_unreferenced : forall hs,
+  stable_along init_cache hs = true ->
+  dead_gone (dead_of init_cache [] hs) (hrun init_cache hs).
+Proof. exact deleted_unreferenced. Qed.
+Print Assumptions c05_deleted_unreferenced.
+
+Theorem c05_deleted_needs_stable_nodes :
+  stable_along init_cache witness_dead = false
+  /\ dead_of init_cache [] witness_dead = [(1, true)]
+  /\ idx_mem 1 1 (on_node (hrun init_cache witness_dead)) = true.
+Proof. exact dead_needs_stable_nodes. Qed.
+Print Assumptions c05_deleted_needs_stable_nodes.
 
 (* ---- scheduling cycles ---- *)
 
@@ -190,8 +237,8 @@ Definition ex_hist : list hop :=
 
 Example ex_hist_hyps :
   hist_nonneg ex_hist = true
-  /\ forallb (fun f : bool * option (list preq) =>
-                fst f && match snd f with Some _ => true | None => false end) (flags_of ex_hist) = true.
+  /\ forallb (fun f : flag =>
+                f_stable f && match f_last f with Some _ => true | None => false end) (flags_of ex_hist) = true.
 Proof. vm_compute. auto. Qed.
 
 Example ex_hist_nontrivial :
@@ -220,10 +267,31 @@ Definition ex_sched : list hop :=
     HSchedule 2 [(1, 2)] 1 1 ].
 Example ex_sched_ok :
   map fst (htrace init_cache ex_sched) = [0; 1; 0; 0; 1]
-  /\ forallb (fun f : bool * option (list preq) =>
-                fst f && match snd f with Some _ => true | None => false end) (flags_of ex_sched) = true
+  /\ forallb (fun f : flag =>
+                f_stable f && match f_last f with Some _ => true | None => false end) (flags_of ex_sched) = true
   /\ all_zero (codes (claims init_cache ex_sched) ex_sched (flags_of ex_sched) [] (views_of ex_sched)) = true.
 Proof. vm_compute. auto. Qed.
+
+(* informer events through both handlers: add, pods assumed, the update to Failed removes the
+   reservation (scheduler-wide handler, case 3); re-created, then deleted by a tombstone with the
+   scheduler-wide handler first: node-stable, the uid is dead at the end and nothing references it *)
+Definition ex_inf_spec (ph : Z) : rspec := mkSpec 1 1 ph false false 2 1 [3] [(1, 4); (4, 8)] [] false 0.
+Definition ex_inf : list hop :=
+  [ HInfAdd (ex_inf_spec 1) 0;
+    HPodAssume 1 1 [(1, 3); (4, 2)];
+    HInfUpdate (ex_inf_spec 1) (ex_inf_spec 3) 0;
+    HInfAdd (ex_inf_spec 1) 1;
+    HPodAssume 1 2 [(1, 1)];
+    HInfDelete (ex_inf_spec 1) 1 true ].
+Example ex_inf_ok :
+  stable_along init_cache ex_inf = true
+  /\ dead_of init_cache [] ex_inf = [(1, true)]
+  /\ map (fun p : Z * cache => length (infos (snd p))) (htrace init_cache ex_inf) = [1; 1; 0; 1; 1; 0]%nat
+  /\ all_zero (codes (claims init_cache ex_inf) ex_inf (flags_of ex_inf) [] (views_of ex_inf)) = true.
+Proof. vm_compute. auto. Qed.
+(* options naming nothing the reservation reserves: every reserved resource stays restricted *)
+Example ex_disjoint_options : names_of (ex_inf_spec 1) = [1; 4].
+Proof. vm_compute. reflexivity. Qed.
 
 Example ex_fit_admits :
   fits_reservation (mkInfo (ex_spec [(1, 8)]) [1] [(1, 1)] [(1, 4)] [] false) [(1, 3)] [] = [].
